@@ -90,6 +90,17 @@ def obligations(tier):
         obs.append(plan_ob([shape_op(2, (2, 2, 2)), setter(6), shape_op(1, B), setter(8), shape_op(1, (2, 2, 2))]))
         obs.append(plan_ob([shape_op(2, B), setter(8), shape_op(1, (2, 2, 2)), setter(6)]))
         obs.append(plan_ob([shape_op(2, B), setter(10), shape_op(1, (2, 2, 2)), setter(7), setter(8)]))
+    # F5: per-frequency mode across shrink / grow in ports and frequencies (allocation > logical size in either dimension)
+    for m in (8, 10):
+        obs.append(plan_ob([shape_op(2, (1, 1, 2)), setter(m), shape_op(1, (1, 1, 1)), shape_op(1, (2, 2, 1)), shape_op(1, (2, 2, 2))]))
+        obs.append(plan_ob([shape_op(2, (2, 2, 1)), shape_op(1, (1, 1, 1)), setter(m), shape_op(1, (2, 2, 1))]))
+        obs.append(plan_ob([shape_op(2, (2, 2, 2)), shape_op(1, (1, 1, 1)), setter(m), shape_op(1, (2, 2, 2))]))
+        obs.append(plan_ob([shape_op(2, (2, 2, 2)), setter(m), shape_op(1, (1, 1, 2)), setter(m), shape_op(1, (2, 2, 2))]))
+        if tier != 'quick':
+            for A in mids:
+                for B in mids:
+                    obs.append(plan_ob([shape_op(2, A), setter(m), shape_op(1, B), shape_op(1, (2, 2, 2))]))
+                    obs.append(plan_ob([shape_op(2, (2, 2, 2)), shape_op(1, A), setter(m), shape_op(1, B), shape_op(1, (2, 2, 2))]))
     # F4: type validation: resize/init with every type code on fixed dims (no later allocation depends on the outcome)
     for t in range(-1, 12):
         for shp in ([(2, 2, 1), (1, 2, 1)] if tier == 'quick' else [(2, 2, 1), (1, 2, 1), (1, 1, 1), (2, 1, 1), (0, 0, 0)]):
